@@ -1,7 +1,8 @@
 """C08 - AXI-Lite interconnect keeps grants and routes until every response has returned.
 
 DUTs: AXILiteArbiter, AXILiteDecoder, AXILiteInterconnectShared, AXILiteCrossbar,
-AXILiteInterconnectPointToPoint (timeout None), 1-3 masters x 1-3 slaves. Masters with five independent
+AXILiteInterconnectPointToPoint (timeout None), 1-3 masters x 1-3 slaves; family 'axi' (props/c08_axi.py): the AXI4
+versions of the same structure with multi-beat bursts. Masters with five independent
 channel drivers, slaves with independent acceptors; every handshake is logged with its cycle; the
 (combinational) interconnect must show each master-side handshake as exactly one slave-side handshake in
 the same cycle at the slave the address decodes to, and responses must return to the issuing master in
@@ -16,7 +17,11 @@ RULE = ("one run = one real AXI-Lite interconnect (shared/crossbar/p2p/arbiter/d
         "windows) with per-master literal operation lists (reads and writes concurrently, AW/W gaps, up to 4 outstanding per "
         "direction, literal bready/rready patterns) and per-slave literal awready/wready/arready patterns, latencies and "
         "queue depths. Non-trivial = some channel was back-pressured, at least two requests were outstanding at once "
-        "somewhere or two masters competed, and >= 10 transactions completed; distinct = distinct event-log digest")
+        "somewhere or two masters competed, and >= 10 transactions completed; distinct = distinct event-log digest. Family axi: the "
+        "same for AXIArbiter/AXIDecoder/AXIInterconnectShared/AXICrossbar/AXIInterconnectPointToPoint with INCR/FIXED/WRAP bursts of 1-8 "
+        "beats, 2-bit IDs, per-master address slots; oracle = program-order memory semantics per master, beat count / last / id / resp "
+        "of every response, every address handshake seen once at the decoded slave in the same cycle with unchanged attributes, "
+        "read lock released by the last beat only")
 ASSUMPTIONS = [
     "agents obey AXI4-Lite: valid/payload held until ready, valid never waits for ready of its own channel, W beats in AW order, "
     "in-order responses per slave, masters never make AW/W/AR wait for B/R",
@@ -26,8 +31,10 @@ ASSUMPTIONS = [
 ]
 COMPONENTS = {"real": ["litex.soc.interconnect.axi.axi_lite.AXILiteArbiter/AXILiteDecoder/AXILiteInterconnectShared/"
                        "AXILiteCrossbar/AXILiteInterconnectPointToPoint/_AXILiteRequestCounter",
+                       "litex.soc.interconnect.axi.axi_full.AXIArbiter/AXIDecoder/AXIInterconnectShared/AXICrossbar/"
+                       "AXIInterconnectPointToPoint/_AXIRequestCounter (family axi)",
                        "litex.soc.integration.soc.SoCRegion.decoder", "litex.gen.sim.core.Simulator"],
-              "stub": ["AXI-Lite master/slave agents", "clock source"]}
+              "stub": ["AXI-Lite master/slave agents", "AXI4 burst master / memory slave agents", "clock source"]}
 CHUNK = 2
 KINDS = ["shared", "crossbar", "shared", "crossbar", "p2p", "arbiter", "decoder"]
 
@@ -35,7 +42,7 @@ KINDS = ["shared", "crossbar", "shared", "crossbar", "p2p", "arbiter", "decoder"
 SEEDED_SCALE = {"quick": 6, "thorough": 10}      # multiplies the run counts of the sampled families in plan()
 
 def plan(tier):
-    return [("axil", 120 if tier == "quick" else 6000)]
+    return [("axil", 120 if tier == "quick" else 6000), ("axi", 60 if tier == "quick" else 3000)]
 
 
 def stamp(si, addr):
@@ -43,6 +50,9 @@ def stamp(si, addr):
 
 
 def generate(family, rng, tier, pipelined=False, w_first=False):
+    if family == "axi":
+        from props import c08_axi
+        return c08_axi.generate(rng, tier)
     kind = rng.choice(KINDS)
     big = rng.random() < 0.25
     nm = 1 if kind in ("p2p", "decoder") else rng.choice([1, 2, 2, 3] if big else [1, 2, 2])
@@ -131,6 +141,9 @@ def build(p):
 
 
 def run(scn):
+    if scn.get("family") == "axi":
+        from props import c08_axi
+        return c08_axi.run(scn)
     p = scn["params"]
     nm, ns, wins, kind = p["nm"], p["ns"], p["wins"], p["kind"]
     top, masters, slaves = build(p)
